@@ -7,6 +7,12 @@ EXPLANATION = ""
 
 CT = {"__NO_CTYPE": None}   # ctype.h as functions (CBMC models), not glibc table macros
 
+def _pax(n, tier, label):
+    return dict(id="ent%d" % n, defines={"ENTSIZE": n, "__NO_CTYPE": None}, tier=tier, label=label,
+                unwind=max(n + 3, 23),
+                unwindset=["read_pax_header.0:%d" % (n // 4 + 2), "read_pax_header.1:%d" % (n + 2),
+                           "read_pax_header.2:%d" % (n + 2), "free_sparse_list.0:%d" % (n // 4 + 4)])
+
 HARNESSES = [
     dict(name="number", file="number.c", label="proved", defines=CT,
          flags=["--unsigned-overflow-check"], timeout=600,
@@ -54,11 +60,17 @@ HARNESSES = [
                [dict(id="len%d" % n, defines={"LEN": n}, unwind=n + 3, tier="thorough",
                      label="bounded(len<=6)") for n in (5, 6)]),
     dict(name="get_line", file="get_line.c", label="bounded(windows <= 2 x 3 bytes)", defines=CT,
-         malloc_fail=True, flags=["--memory-leak-check"], timeout=1200, weight=4, unwind=8,
+         flags=["--memory-leak-check"], timeout=1200, weight=4, unwind=8,
          fp={"get_buffered_data": "env_get_buffered_data", "advance_buffer": "env_advance_buffer"},
          cases=[dict(id="w2c2", defines={"WIN": 2, "CHUNKS": 2, "__NO_CTYPE": None}, tier="quick"),
                 dict(id="w3c2", defines={"WIN": 3, "CHUNKS": 2, "__NO_CTYPE": None}, tier="thorough"),
                 dict(id="w2c3", defines={"WIN": 2, "CHUNKS": 3, "__NO_CTYPE": None}, tier="thorough")]),
+    dict(name="pax_loop", file="pax_loop.c", label="bounded(PAX record <= 24 bytes)", defines=CT,
+         pre_instrument_flags=["--replace-calls", "find_handler:stub_find_handler",
+                               "--replace-calls", "apply_handler:stub_apply_handler"],
+         malloc_fail=True, flags=["--memory-leak-check"], timeout=1500, weight=9,
+         cases=[_pax(n, "quick", "bounded(PAX record <= 24 bytes)") for n in (6, 12, 24)] +
+               [_pax(n, "thorough", "bounded(PAX record <= 48 bytes)") for n in (36, 48)]),
     dict(name="read_header", file="read_header.c", label="bounded(header records per call <= 3)",
          defines=CT, unwind=513, malloc_fail=True, timeout=900, weight=7,
          nochecks=["--conversion-check"],
